@@ -91,6 +91,8 @@ def channels(tier):
           # the scenario's own runspecs (not the model object's) define the grid: first run of each format, and twice in a row
           "scenario-specs:batch:df", "scenario-specs:batch:dict", "scenario-specs:batch:json", "scenario-specs:batch:df-twice",
           "scenario-specs:rest:run",
+          # sessions on such a scenario, begun without / with settings that name only SOME of the run specs (the others stay the scenario's)
+          "scenario-specs:session:plain", "scenario-specs:session:partial-stoptime", "scenario-specs:session:partial-dt",
           # only some equations are requested (the stock and the constants, not the flow between them), settings at a step
           "subset:session:settings@2", "subset:session:settings@1"]
     return ch
@@ -153,6 +155,22 @@ def run_channel(spec, channel, mode, env=None):
             if fmt == "json":
                 r = scen.loads(r)
             return scen.from_dict(r, "sm", "A"), changes, consts
+        if channel.startswith("session:"):
+            b, consts = make_bptk(spec, mode, env, specs_by_scenario=True)
+            which = channel.split(":")[1]
+            st = {}
+            if which == "partial-stoptime":
+                st = {"sm": {"A": {"runspecs": {"stoptime": stop_of(spec)}}}}
+            elif which == "partial-dt":
+                st = {"sm": {"A": {"runspecs": {"dt": dt}}}}
+            b.begin_session(scenarios=["A"], scenario_managers=["sm"], equations=scen.EQS, settings=st)
+            steps = []
+            for i in range(nlab + 1):
+                r = b.run_step()
+                if isinstance(r, dict) and r.get("msg"):
+                    break
+                steps.append(scen.from_step(r, "sm", "A"))
+            return scen.merge_steps(steps), changes, consts
     if channel.startswith("subset:session:settings@"):
         at = int(channel.rsplit("@", 1)[1])
         eqs = ["S", "k", "c"]
